@@ -100,7 +100,7 @@ func runVerifyCommit(rp *reporter, st *p1stats, w *world, nv int, claimedIDs []i
 				// the Commit's own BlockID field: the claimed id, and (up to three validators) also another id —
 				// what counts is the id the caller asks about
 				fields := []int{claimed}
-				if w.n <= 3 {
+				if w.n <= 3 && len(claimedIDs) > 1 {
 					fields = append(fields, claimedIDs[(ci+1)%len(claimedIDs)])
 				}
 				for _, field := range fields {
@@ -112,9 +112,10 @@ func runVerifyCommit(rp *reporter, st *p1stats, w *world, nv int, claimedIDs []i
 					var err error
 					if p, pv := vk.Catch(func() { err = vs.VerifyCommit(chainID, blockIDs[claimed], H, commit) }); p {
 						// a panic is not an acceptance; counted and reported in the evidence, the property is silent on it
-						atomic.AddInt64(&st.panics, 1)
 						err = fmt.Errorf("panic: %v", pv)
-						r.Note("VerifyCommit panicked: %v on %v", pv, describe(w, tab, asg, claimed))
+						if atomic.AddInt64(&st.panics, 1) <= 3 {
+							r.Note("VerifyCommit panicked: %v on %v", pv, describe(w, tab, asg, claimed))
+						}
 					}
 					ref := w.refCommit(slots, claimed, H, 0, relax{})
 					atomic.AddInt64(&st.cases, 1)
@@ -175,9 +176,10 @@ func runWrongSize(rp *reporter, st *p1stats, w *world) {
 				commit := &types.Commit{BlockID: blockIDs[claimed], Precommits: pre}
 				var err error
 				if p, pv := vk.Catch(func() { err = vs.VerifyCommit(chainID, blockIDs[claimed], H, commit) }); p {
-					atomic.AddInt64(&st.panics, 1)
 					err = fmt.Errorf("panic: %v", pv)
-					r.Note("VerifyCommit panicked on a %s commit: %v", shape, pv)
+					if atomic.AddInt64(&st.panics, 1) <= 3 {
+						r.Note("VerifyCommit panicked on a %s commit: %v", shape, pv)
+					}
 				}
 				atomic.AddInt64(&st.cases, 1)
 				st.verdict(errClass(err))
